@@ -8,9 +8,12 @@ import QeepProps.C16t
 
 `fc_ce_backprop`: any reachable heap; `W`, `B` tracked unspent `[O]` tensors that nothing consumes yet, an unspent `[N, D]`
 input `x`, an untracked unspent `[N, O]` target `t`. Run `FC.Forward(x)`, `CE.Compute(y, t)` and `BackPropagate(loss)` (`sum`
-mode — what the property demands). If the back-propagation returns without error,
+mode — what the property demands; `c = bscale bm N` is 1 there). If the back-propagation returns without error,
 
-    W.Gradient()[o] = Σ_n G[n][o] · Σ_d x[n][d]        B.Gradient()[o] = Σ_n G[n][o]
+    W.Gradient()[o] = c · Σ_n G[n][o] · Σ_d x[n][d]        B.Gradient()[o] = c · Σ_n G[n][o]
+
+(in `mean` mode — the tree as it is, finding D2 — `c = 1/N`: the parameters of a layer under a loss receive the wanted gradient
+divided by the batch size)
 
 with `G[n][o] = ceGrad 1 N t̂[n][o] y[n][o]` — the partial derivative of the CE loss with respect to the layer's output
 `y[n][o]` (`C13x.ce_formula_deriv`; `−t̂/(N·y)` strictly inside the clip band, 0 strictly outside) — and `Σ_d x[n][d]`,
@@ -28,7 +31,7 @@ namespace C11r
 open RealScalar C01 C01x C01z C01w C01q C16x C16z C16w C16t C15x C15z C13x C13v C11x
 open C12x (tHat)
 
-theorem fc_ce_backprop (H : Heap ℝ) (w b x t N D O : Nat) (hR : Reach .sum H)
+theorem fc_ce_backprop (bm : BMode) (H : Heap ℝ) (w b x t N D O : Nat) (hR : Reach bm H)
     (lw : Live H w) (lb : Live H b) (hx : x < H.size) (cx : H.dirty x = false) (hwb : w ≠ b)
     (ww : (H.val w).WF) (wb : (H.val b).WF) (wx : (H.val x).WF)
     (dw : (H.val w).dims = [O]) (db : (H.val b).dims = [O]) (dx : (H.val x).dims = [N, D])
@@ -36,21 +39,21 @@ theorem fc_ce_backprop (H : Heap ℝ) (w b x t N D O : Nat) (hR : Reach .sum H)
     (htc : H.dirty t = false)
     (hsole : ∀ v, ∀ e ∈ (H.ctx v).edges, e.target ≠ w ∧ e.target ≠ b) :
     ∃ y H1 r H2, fcForward ⟨some w, some b⟩ [some x] H = .ok (y, H1) ∧
-      lossCompute Loss.ce (some y) (some t) H1 = .ok (r, H2) ∧ Extends H H2 ∧ Reach .sum H2 ∧
+      lossCompute Loss.ce (some y) (some t) H1 = .ok (r, H2) ∧ Extends H H2 ∧ Reach bm H2 ∧
       (∀ n o, n < N → o < O → (H1.val y).el [n, o]
         = fcReal D (fun o => (H.val w).el [o]) (fun o => (H.val b).el [o]) (fun n d => (H.val x).el [n, d]) n o) ∧
-      ((backprop .sum H2 r).status = .ok () →
-        ∃ dW dB, (backprop .sum H2 r).heap.grad w = some dW ∧ (backprop .sum H2 r).heap.grad b = some dB ∧
+      ((backprop bm H2 r).status = .ok () →
+        ∃ dW dB, (backprop bm H2 r).heap.grad w = some dW ∧ (backprop bm H2 r).heap.grad b = some dB ∧
           dW.WF ∧ dB.WF ∧ dW.dims = [O] ∧ dB.dims = [O] ∧
-          (∀ o, o < O → dW.el [o] = ∑ n ∈ Finset.range N,
+          (∀ o, o < O → dW.el [o] = bscale bm N * ∑ n ∈ Finset.range N,
               ceGrad 1 N (tHat ((H.val t).el [n, o])) ((H1.val y).el [n, o]) * ∑ d ∈ Finset.range D, (H.val x).el [n, d]) ∧
-          (∀ o, o < O → dB.el [o] = ∑ n ∈ Finset.range N,
+          (∀ o, o < O → dB.el [o] = bscale bm N * ∑ n ∈ Finset.range N,
               ceGrad 1 N (tHat ((H.val t).el [n, o])) ((H1.val y).el [n, o]))) := by
   obtain ⟨H1, h1, hext, hsz, g⟩ := fc_forward_graph N D O w b x H lw.1 lb.1 hx _ _ _
     (is1_self _ ww O dw) (is1_self _ wb O db) (is2_self _ wx N D dx)
   have hwk : w < H.size := lw.1
   have hbk : b < H.size := lb.1
-  have R1 : Reach .sum H1 := reach_fcForward hR hwk hbk hx h1
+  have R1 : Reach bm H1 := reach_fcForward hR hwk hbk hx h1
   have tw : H1.tracked w = true := by have := lw.2.1; simp only [Heap.tracked, hext.ctx hwk] at this ⊢; exact this
   have tb : H1.tracked b = true := by have := lb.2.1; simp only [Heap.tracked, hext.ctx hbk] at this ⊢; exact this
   have cw : H1.dirty w = false := by have := lw.2.2; simp only [Heap.dirty, hext.ctx hwk] at this ⊢; exact this
@@ -67,7 +70,7 @@ theorem fc_ce_backprop (H : Heap ℝ) (w b x t N D O : Nat) (hR : Reach .sum H)
   have vt1 : H1.val t = H.val t := hext.val ht
   have tt1 : H1.tracked t = false := by simp only [Heap.tracked, hext.ctx ht] at htt ⊢; exact htt
   have ct1 : H1.dirty t = false := by simp only [Heap.dirty, hext.ctx ht] at htc ⊢; exact htc
-  obtain ⟨H2, hrun, hext2, hsz2, R2, troot, hfoot, hokc, himp⟩ := ce_backprop_full .sum H1 (H.size + 8) t N O R1 ly.1 ht1 g.y.wf
+  obtain ⟨H2, hrun, hext2, hsz2, R2, troot, hfoot, hokc, himp⟩ := ce_backprop_full bm H1 (H.size + 8) t N O R1 ly.1 ht1 g.y.wf
     (by rw [vt1]; exact wt) g.y.dims (by rw [vt1]; exact dt) ly.2.1 ly.2.2 tt1 ct1
   refine ⟨H.size + 8, H1, H1.size + 16, H2, h1, hrun, hext.trans hext2, R2, ?_, ?_⟩
   · intro n o hn ho
@@ -95,34 +98,75 @@ theorem fc_ce_backprop (H : Heap ℝ) (w b x t N D O : Nat) (hR : Reach .sum H)
       rw [← vt1]
       rw [vt1]
       exact this
-  obtain ⟨dW, dB, q1, q2, q3, q4, q5, q6, q7, q8⟩ := fc_in_walk_sum H2 (H1.size + 16) w b x H.size N D O hdag troot hok g2
-    hwk hbk hx hwb
-    (by simp only [Heap.tracked, old w (by omega)] at tw ⊢; exact tw)
-    (by simp only [Heap.tracked, old b (by omega)] at tb ⊢; exact tb)
-    (by simp only [Heap.dirty, old w (by omega)] at cw ⊢; exact cw)
-    (by simp only [Heap.dirty, old b (by omega)] at cb ⊢; exact cb)
-    (by simp only [Heap.dirty, old x (by omega)] at cx' ⊢; exact cx')
-    (by simp only [Heap.grad, old w (by omega)] at gw ⊢; exact gw)
-    (by simp only [Heap.grad, old b (by omega)] at gb ⊢; exact gb)
-    (by intro i hi; have := gnew (H.size + i) (by omega); simp only [Heap.grad, old (H.size + i) (by omega)] at this ⊢; exact this)
-    (by omega) (by omega) (by intro i hi; omega)
-    (by
-      intro v hvo hv e hev
-      rcases hv with hv | hv
-      · rw [old v (by omega), hext.ctx hv] at hev
-        obtain ⟨a1, a2⟩ := hsole v e hev
-        have := hdagH v e hev
-        exact ⟨a1, a2, by omega⟩
-      · have hvt : H2.tracked v = true := by
-          rcases C20.order_members_tracked H2 (H1.size + 16) hdag v hvo with rfl | ⟨u, _, hs⟩
-          · exact troot
-          · unfold succs at hs; exact (List.mem_filter.mp hs).2
-        have := hfoot v (by omega) hvt e hev
-        refine ⟨by omega, by omega, by omega⟩)
-    _ _ G2 my (by rw [f8, vt1])
-  refine ⟨dW, dB, q1, q2, q3, q5, q4, q6, ?_, q8⟩
-  intro o ho
-  rw [q7 o ho]
+  have key : ∃ dW dB, (backprop bm H2 (H1.size + 16)).heap.grad w = some dW ∧ (backprop bm H2 (H1.size + 16)).heap.grad b = some dB ∧
+      dW.WF ∧ dW.dims = [O] ∧ dB.WF ∧ dB.dims = [O] ∧
+      (∀ o, o < O → dW.el [o] = bscale bm N * ∑ n ∈ Finset.range N,
+        ceGrad 1 N (tHat ((H.val t).el [n, o])) ((H1.val (H.size + 8)).el [n, o]) * ∑ d ∈ Finset.range D, (H.val x).el [n, d]) ∧
+      (∀ o, o < O → dB.el [o] = bscale bm N * ∑ n ∈ Finset.range N,
+        ceGrad 1 N (tHat ((H.val t).el [n, o])) ((H1.val (H.size + 8)).el [n, o])) := by
+    cases bm with
+    | sum =>
+      obtain ⟨dW, dB, q1, q2, q3, q4, q5, q6, q7, q8⟩ := fc_in_walk_sum H2 (H1.size + 16) w b x H.size N D O hdag troot hok g2
+        hwk hbk hx hwb
+        (by simp only [Heap.tracked, old w (by omega)] at tw ⊢; exact tw)
+        (by simp only [Heap.tracked, old b (by omega)] at tb ⊢; exact tb)
+        (by simp only [Heap.dirty, old w (by omega)] at cw ⊢; exact cw)
+        (by simp only [Heap.dirty, old b (by omega)] at cb ⊢; exact cb)
+        (by simp only [Heap.dirty, old x (by omega)] at cx' ⊢; exact cx')
+        (by simp only [Heap.grad, old w (by omega)] at gw ⊢; exact gw)
+        (by simp only [Heap.grad, old b (by omega)] at gb ⊢; exact gb)
+        (by intro i hi; have := gnew (H.size + i) (by omega); simp only [Heap.grad, old (H.size + i) (by omega)] at this ⊢; exact this)
+        (by omega) (by omega) (by intro i hi; omega)
+        (by
+          intro v hvo hv e hev
+          rcases hv with hv | hv
+          · rw [old v (by omega), hext.ctx hv] at hev
+            obtain ⟨a1, a2⟩ := hsole v e hev
+            have := hdagH v e hev
+            exact ⟨a1, a2, by omega⟩
+          · have hvt : H2.tracked v = true := by
+              rcases C20.order_members_tracked H2 (H1.size + 16) hdag v hvo with rfl | ⟨u, _, hs⟩
+              · exact troot
+              · unfold succs at hs; exact (List.mem_filter.mp hs).2
+            have := hfoot v (by omega) hvt e hev
+            refine ⟨by omega, by omega, by omega⟩)
+        _ _ G2 my (by rw [f8, vt1])
+    
+      refine ⟨dW, dB, q1, q2, q3, q4, q5, q6, ?_, ?_⟩
+      · intro o ho; rw [q7 o ho]; simp only [bscale, one_mul]
+      · intro o ho; rw [q8 o ho]; simp only [bscale, one_mul]
+    | mean =>
+      obtain ⟨dW, dB, q1, q2, q3, q4, q5, q6, q7, q8⟩ := fc_in_walk_mean H2 (H1.size + 16) w b x H.size N D O hdag troot hok g2
+        hwk hbk hx hwb
+        (by simp only [Heap.tracked, old w (by omega)] at tw ⊢; exact tw)
+        (by simp only [Heap.tracked, old b (by omega)] at tb ⊢; exact tb)
+        (by simp only [Heap.dirty, old w (by omega)] at cw ⊢; exact cw)
+        (by simp only [Heap.dirty, old b (by omega)] at cb ⊢; exact cb)
+        (by simp only [Heap.dirty, old x (by omega)] at cx' ⊢; exact cx')
+        (by simp only [Heap.grad, old w (by omega)] at gw ⊢; exact gw)
+        (by simp only [Heap.grad, old b (by omega)] at gb ⊢; exact gb)
+        (by intro i hi; have := gnew (H.size + i) (by omega); simp only [Heap.grad, old (H.size + i) (by omega)] at this ⊢; exact this)
+        (by omega) (by omega) (by intro i hi; omega)
+        (by
+          intro v hvo hv e hev
+          rcases hv with hv | hv
+          · rw [old v (by omega), hext.ctx hv] at hev
+            obtain ⟨a1, a2⟩ := hsole v e hev
+            have := hdagH v e hev
+            exact ⟨a1, a2, by omega⟩
+          · have hvt : H2.tracked v = true := by
+              rcases C20.order_members_tracked H2 (H1.size + 16) hdag v hvo with rfl | ⟨u, _, hs⟩
+              · exact troot
+              · unfold succs at hs; exact (List.mem_filter.mp hs).2
+            have := hfoot v (by omega) hvt e hev
+            refine ⟨by omega, by omega, by omega⟩)
+        _ _ G2 my (by rw [f8, vt1])
+    
+      refine ⟨dW, dB, q1, q2, q3, q4, q5, q6, ?_, ?_⟩
+      · intro o ho; rw [q7 o ho]; simp only [bscale]; rw [div_eq_mul_inv, mul_comm, one_div]
+      · intro o ho; rw [q8 o ho]; simp only [bscale]; rw [div_eq_mul_inv, mul_comm, one_div]
+  obtain ⟨dW, dB, q1, q2, q3, q4, q5, q6, q7, q8⟩ := key
+  exact ⟨dW, dB, q1, q2, q3, q5, q4, q6, q7, q8⟩
 
 /-- **FC → CE over leaf parameters and a data input: `BackPropagate(loss)` succeeds** (either mode): the progress statement
     exported by `C13v.ce_backprop_full` for the loss graph, discharged below the prediction with the per-edge acceptance
@@ -266,25 +310,25 @@ noncomputable def fcCe (w b x t : Nat) : HM ℝ Nat := do
     with `G[n][o] = ceGrad 1 N t̂[n][o] y[n][o]` and `y[n][o] = W[o]·Σ_d x[n][d] + B[o]` (`fcReal`): gradient descent on the
     CE loss of the layer's output — `G` is `∂loss/∂y` (`C13x.ce_formula_deriv`) and the sums are the chain rule through
     `∂y[n][o]/∂W[o] = Σ_d x[n][d]`, `∂y[n][o]/∂B[o] = 1` (`C16x.fc_vjp_is_derivative`). -/
-theorem fc_ce_train_step (lr : ℝ) (H : Heap ℝ) (w b x t N D O : Nat) (hR : Reach .sum H)
+theorem fc_ce_train_step (bm : BMode) (lr : ℝ) (H : Heap ℝ) (w b x t N D O : Nat) (hR : Reach bm H)
     (lw : Live H w) (lb : Live H b) (hx : x < H.size) (cx : H.dirty x = false) (hwb : w ≠ b)
     (ww : (H.val w).WF) (wb : (H.val b).WF) (wx : (H.val x).WF)
     (dw : (H.val w).dims = [O]) (db : (H.val b).dims = [O]) (dx : (H.val x).dims = [N, D])
     (ht : t < H.size) (wt : (H.val t).WF) (dt : (H.val t).dims = [N, O]) (htt : H.tracked t = false)
     (htc : H.dirty t = false)
     (hsole : ∀ v, ∀ e ∈ (H.ctx v).edges, e.target ≠ w ∧ e.target ≠ b)
-    (l : Nat) (H2 : Heap ℝ) (hfwd : fcCe w b x t H = .ok (l, H2)) (hbp : (backprop .sum H2 l).status = .ok ()) :
-    ∃ rw rb H', trainStep .sum lr (fcCe w b x t) [w, b] H = .ok ([rw, rb], H') ∧
+    (l : Nat) (H2 : Heap ℝ) (hfwd : fcCe w b x t H = .ok (l, H2)) (hbp : (backprop bm H2 l).status = .ok ()) :
+    ∃ rw rb H', trainStep bm lr (fcCe w b x t) [w, b] H = .ok ([rw, rb], H') ∧
       H'.ctx rw = freshLeaf ∧ H'.ctx rb = freshLeaf ∧ (H'.val rw).dims = [O] ∧ (H'.val rb).dims = [O] ∧
-      (∀ o, o < O → (H'.val rw).el [o] = (H.val w).el [o] - lr * ∑ n ∈ Finset.range N,
+      (∀ o, o < O → (H'.val rw).el [o] = (H.val w).el [o] - lr * (bscale bm N * ∑ n ∈ Finset.range N,
           ceGrad 1 N (tHat ((H.val t).el [n, o]))
             (fcReal D (fun o => (H.val w).el [o]) (fun o => (H.val b).el [o]) (fun n d => (H.val x).el [n, d]) n o)
-          * ∑ d ∈ Finset.range D, (H.val x).el [n, d]) ∧
-      (∀ o, o < O → (H'.val rb).el [o] = (H.val b).el [o] - lr * ∑ n ∈ Finset.range N,
+          * ∑ d ∈ Finset.range D, (H.val x).el [n, d])) ∧
+      (∀ o, o < O → (H'.val rb).el [o] = (H.val b).el [o] - lr * (bscale bm N * ∑ n ∈ Finset.range N,
           ceGrad 1 N (tHat ((H.val t).el [n, o]))
-            (fcReal D (fun o => (H.val w).el [o]) (fun o => (H.val b).el [o]) (fun n d => (H.val x).el [n, d]) n o)) := by
+            (fcReal D (fun o => (H.val w).el [o]) (fun o => (H.val b).el [o]) (fun n d => (H.val x).el [n, d]) n o))) := by
   obtain ⟨y, H1, r, H2', h1, hrun, hext, _, hy, himp⟩ :=
-    fc_ce_backprop H w b x t N D O hR lw lb hx cx hwb ww wb wx dw db dx ht wt dt htt htc hsole
+    fc_ce_backprop bm H w b x t N D O hR lw lb hx cx hwb ww wb wx dw db dx ht wt dt htt htc hsole
   have hfwd' : fcCe w b x t H = .ok (r, H2') := by
     unfold fcCe
     rw [bind_run h1]
@@ -294,7 +338,7 @@ theorem fc_ce_train_step (lr : ℝ) (H : Heap ℝ) (w b x t N D O : Nat) (hR : R
   have vw : H2.val w = H.val w := hext.val lw.1
   have vb : H2.val b = H.val b := hext.val lb.1
   have hlt : H.size ≤ H2.size := hext.1
-  obtain ⟨rs, H', hstep, hlen, _, hspec⟩ := train_step_law .sum lr (fcCe w b x t) [w, b] H H2 l hfwd hbp
+  obtain ⟨rs, H', hstep, hlen, _, hspec⟩ := train_step_law bm lr (fcCe w b x t) [w, b] H H2 l hfwd hbp
     [dW, dB] rfl (by
       intro k w' g hk hg
       match k, hk, hg with
@@ -316,7 +360,7 @@ theorem fc_ce_train_step (lr : ℝ) (H : Heap ℝ) (w b x t N D O : Nat) (hR : R
       unfold stepped
       rw [C15y.zip_el _ (H.val w) dW ww wW (by rw [dw, dWd]) (by rw [dw]; exact valid1 ho), eW o ho]
       simp only [sub_eq, mul_eq]
-      congr 2
+      congr 3
       apply Finset.sum_congr rfl
       intro n hn
       rw [hy n o (Finset.mem_range.mp hn) ho]
@@ -325,14 +369,14 @@ theorem fc_ce_train_step (lr : ℝ) (H : Heap ℝ) (w b x t N D O : Nat) (hR : R
       unfold stepped
       rw [C15y.zip_el _ (H.val b) dB wb wB (by rw [db, dBd]) (by rw [db]; exact valid1 ho), eB o ho]
       simp only [sub_eq, mul_eq]
-      congr 2
+      congr 3
       apply Finset.sum_congr rfl
       intro n hn
       rw [hy n o (Finset.mem_range.mp hn) ho]
 
 /-- **the same step with leaf parameters and a data input: unconditional.** `Forward`, `CE.Compute`, `BackPropagate`, `Update`
     of both parameters all succeed and the parameters are replaced by `W − lr·∂loss/∂W`, `B − lr·∂loss/∂B`. -/
-theorem fc_ce_train_step_leaf (lr : ℝ) (H : Heap ℝ) (w b x t N D O : Nat) (hR : Reach .sum H)
+theorem fc_ce_train_step_leaf (bm : BMode) (lr : ℝ) (H : Heap ℝ) (w b x t N D O : Nat) (hR : Reach bm H)
     (lw : Live H w) (lb : Live H b) (hx : x < H.size) (cx : H.dirty x = false) (ux : H.tracked x = false) (hwb : w ≠ b)
     (ww : (H.val w).WF) (wb : (H.val b).WF) (wx : (H.val x).WF)
     (dw : (H.val w).dims = [O]) (db : (H.val b).dims = [O]) (dx : (H.val x).dims = [N, D])
@@ -340,24 +384,24 @@ theorem fc_ce_train_step_leaf (lr : ℝ) (H : Heap ℝ) (w b x t N D O : Nat) (h
     (htc : H.dirty t = false)
     (leafw : (H.ctx w).edges = []) (leafb : (H.ctx b).edges = [])
     (hsole : ∀ v, ∀ e ∈ (H.ctx v).edges, e.target ≠ w ∧ e.target ≠ b) :
-    ∃ rw rb H', trainStep .sum lr (fcCe w b x t) [w, b] H = .ok ([rw, rb], H') ∧
+    ∃ rw rb H', trainStep bm lr (fcCe w b x t) [w, b] H = .ok ([rw, rb], H') ∧
       H'.ctx rw = freshLeaf ∧ H'.ctx rb = freshLeaf ∧ (H'.val rw).dims = [O] ∧ (H'.val rb).dims = [O] ∧
-      (∀ o, o < O → (H'.val rw).el [o] = (H.val w).el [o] - lr * ∑ n ∈ Finset.range N,
+      (∀ o, o < O → (H'.val rw).el [o] = (H.val w).el [o] - lr * (bscale bm N * ∑ n ∈ Finset.range N,
           ceGrad 1 N (tHat ((H.val t).el [n, o]))
             (fcReal D (fun o => (H.val w).el [o]) (fun o => (H.val b).el [o]) (fun n d => (H.val x).el [n, d]) n o)
-          * ∑ d ∈ Finset.range D, (H.val x).el [n, d]) ∧
-      (∀ o, o < O → (H'.val rb).el [o] = (H.val b).el [o] - lr * ∑ n ∈ Finset.range N,
+          * ∑ d ∈ Finset.range D, (H.val x).el [n, d])) ∧
+      (∀ o, o < O → (H'.val rb).el [o] = (H.val b).el [o] - lr * (bscale bm N * ∑ n ∈ Finset.range N,
           ceGrad 1 N (tHat ((H.val t).el [n, o]))
-            (fcReal D (fun o => (H.val w).el [o]) (fun o => (H.val b).el [o]) (fun n d => (H.val x).el [n, d]) n o)) := by
+            (fcReal D (fun o => (H.val w).el [o]) (fun o => (H.val b).el [o]) (fun n d => (H.val x).el [n, d]) n o))) := by
   obtain ⟨y, H1, r, H2, h1, hrun, _, _, _, _⟩ :=
-    fc_ce_backprop H w b x t N D O hR lw lb hx cx hwb ww wb wx dw db dx ht wt dt htt htc hsole
+    fc_ce_backprop bm H w b x t N D O hR lw lb hx cx hwb ww wb wx dw db dx ht wt dt htt htc hsole
   have hfwd : fcCe w b x t H = .ok (r, H2) := by
     unfold fcCe
     rw [bind_run h1]
     exact hrun
-  have hok := fc_ce_backprop_ok .sum H w b x t N D O hR lw lb hx cx ux hwb ww wb wx dw db dx ht wt dt htt htc leafw leafb
+  have hok := fc_ce_backprop_ok bm H w b x t N D O hR lw lb hx cx ux hwb ww wb wx dw db dx ht wt dt htt htc leafw leafb
     y H1 h1 r H2 hrun
-  exact fc_ce_train_step lr H w b x t N D O hR lw lb hx cx hwb ww wb wx dw db dx ht wt dt htt htc hsole r H2 hfwd hok
+  exact fc_ce_train_step bm lr H w b x t N D O hR lw lb hx cx hwb ww wb wx dw db dx ht wt dt htt htc hsole r H2 hfwd hok
 
 /-- the hypotheses of `fc_ce_backprop` are satisfiable: two tracked parameter leaves `[2]`, a data leaf `[1, 3]` and an
     untracked target leaf `[1, 2]` -/
